@@ -31,6 +31,12 @@ CLAIMS = {
         'note': 'Type-based aliasing (a store through T* may touch any T; writes through integer/void* round trips other than the repo\'s macros are not seen). User callbacks, iterators and OpenSSL are outside the claim; process scanning (proc/linux.c page_size) is a listed exception.',
         'technique': 'static effect (may-write) analysis over a pointer-resolved call graph + must-hold lockset + inc/dec pairing on clang CFG facts',
     },
+    'C10': {
+        'text': 'Decides that every field of the scanner context a scan may write (effect analysis over everything reachable from yr_scanner_scan_mem_blocks) is re-initialised on the fresh-scan branch, assigned on every path before rule evaluation, or a listed setting/cache - clearing only at the end of a scan is rejected because a scan suspended with ERROR_BLOCK_NOT_READY and never resumed runs no end-of-scan code; that yr_execute_code passes yr_modules_unload_all (and its frees) on every return once the dispatch loop was entered; that yr_re_exec returns its fibers to the pool on every exit and recycled fibers are fully re-initialised; that destroy releases what create allocates. Necessary clauses of C10; equality of callback traces is not decided.',
+        'design_ref': 'DESIGN.md section 4, C10 (R10.1-R10.4)',
+        'note': 'Trusts the SETTINGS table in yrsa/rules/C10.py (each entry has its reason) and type-based effect analysis. A reset performed conditionally inside the fresh-scan branch counts as a reset.',
+        'technique': 'static write-set vs reset-set comparison (effect analysis + must-assign paths) and must-pass-through rules over clang CFG facts',
+    },
     'C12': {
         'text': 'Decides, for every constant-folding grammar action, that the folder applies the same C operator and the same operand-value guards as the VM handler of the opcode the action emits; that no compiler-layer code reads a run-time object value; that externals are looked up in the scanner-owned table; and that shortcut flags are cleared on every path that uses a string otherwise. These are necessary structural clauses of C12, decided on all sites; verdict equality itself is not decided.',
         'design_ref': 'DESIGN.md section 4, C12 (R12.1-R12.6)',
